@@ -226,14 +226,15 @@ def other_resources_unchanged(c, rid):
         e = pre.sel("Res", p) != VAbsent
         if "FS" in pre.g:
             e = z3.Or(e, pre.sel("FS", p) != VAbsent)
-        return e
+        # ... or is a name the program holds (the file of a collection that has not been written yet) [E-UUID]
+        return z3.Or(e, smt.known_name(p))
     if c.mode == "assume":
         cl = []
         for a, rec in pre.objs.items():
             if rec.tag.startswith("node") and not isinstance(rec.fields.get("_root"), ObjV):
                 p = sc.resid(c.eng, pre, ObjV(a))
                 cl.append(z3.Implies(z3.And(p != rid, existed(p)), same(p)))
-        for p in pre.ghost.get("skolem_res", []):
+        for p in list(pre.ghost.get("skolem_res", [])) + list(pre.ghost.get("skolem_files", [])):
             cl.append(z3.Implies(z3.And(p != rid, existed(p)), same(p)))
         return smt.and_(cl)
     p0 = pre.ghost["skolem_res"][0]
